@@ -6,6 +6,7 @@
 -/
 import Mwp.Lemmas.RelAlg
 import Mwp.Lemmas.RelFix
+import Mwp.Lemmas.FixTerm
 namespace Mwp.Props.C10
 open Mwp
 
@@ -60,6 +61,12 @@ theorem results_well_formed (r1 r2 : Relation) (h1 : r1.WF) (h2 : r2.WF) :
 theorem fixpoint_is_closure (r f : Relation) (h : r.WF) (hf : Relation.fixpoint r = .ok f) (c : Choice) :
     f.vars = r.vars ∧ f.WF ∧ f.toSMat c = Spec.SMat.closure (r.toSMat c) :=
   Relation.fixpoint_toSMat r f h hf c
+
+/-- … and it always stops (Mwp/Lemmas/FixTerm*.lean): total correctness of the fixpoint. -/
+theorem fixpoint_total (r : Relation) (h : r.WF) :
+    ∃ f, Relation.fixpoint r = .ok f ∧ f.vars = r.vars ∧ f.WF ∧
+      ∀ c, f.toSMat c = Spec.SMat.closure (r.toSMat c) :=
+  Relation.fixpoint_total r h
 
 /-- The while-loop correction acts pointwise as rule W with failure recorded as ∞: a cell's value
     becomes ∞ iff it was `p`, or ∞, or `w` on the diagonal; everything else is unchanged. -/
